@@ -45,6 +45,68 @@ type frame struct {
 	results []string // named result allocs (unused)
 	depth   int
 	hdr     map[*ssa.BasicBlock]*hdrInfo
+	declFrames map[*loopInfo]*declFrame
+}
+
+// declFrame is a loop frame declared with a loop-level assigns clause.
+type declFrame struct {
+	pats []modPat
+	top  string // allocation mark before the loop: younger cells are free to change
+}
+
+// checkWrite emits, for every enclosing loop with a declared frame, the
+// obligation that a write to addr (value type t) stays inside that frame.
+func (f *frame) checkWrite(b *ssa.BasicBlock, addr string, t types.Type, in string, pos token.Pos, what string) {
+	vc := f.vc
+	for li, df := range f.declFrames {
+		if !li.blocks[b] {
+			continue
+		}
+		for _, lf := range vc.leaves(t) {
+			if hasElemStep(lf.steps) {
+				vc.unsupported("write of array-containing value inside loop with declared frame")
+				continue
+			}
+			l := applySteps(addr, lf.steps)
+			var ms []string
+			for _, p := range df.pats {
+				if p.sort == lf.sort {
+					ms = append(ms, p.matchCond(l))
+				}
+			}
+			ms = append(ms, App(">", App("rt", l), df.top))
+			vc.obligeIn(f, "loop-assigns", fmt.Sprintf("loop%d:%s", li.ordinal, what), in, Or(ms...), pos, "write stays inside the loop's declared assigns frame")
+		}
+	}
+}
+
+// checkCallFrame: a callee's frame must be inside every enclosing declared loop frame.
+func (f *frame) checkCallFrame(b *ssa.BasicBlock, calleePats []modPat, preTop string, in string, pos token.Pos, what string) {
+	vc := f.vc
+	for li, df := range f.declFrames {
+		if !li.blocks[b] {
+			continue
+		}
+		for _, srt := range vc.allHeaps() {
+			if !patsTouch(calleePats, srt) {
+				continue
+			}
+			sk := vc.fresh("lf_l", "Loc")
+			var cm, lm []string
+			for _, p := range calleePats {
+				if p.sort == srt {
+					cm = append(cm, p.matchCond(sk))
+				}
+			}
+			for _, p := range df.pats {
+				if p.sort == srt {
+					lm = append(lm, p.matchCond(sk))
+				}
+			}
+			lm = append(lm, App(">", App("rt", sk), df.top))
+			vc.obligeIn(f, "loop-assigns", fmt.Sprintf("loop%d:%s:%s", li.ordinal, what, srt), in, Implies(Or(cm...), Or(lm...)), pos, "callee's assigns frame stays inside the loop's declared assigns frame")
+		}
+	}
 }
 
 type hdrInfo struct {
@@ -363,7 +425,35 @@ func (f *frame) loopEnv(li *loopInfo, b *ssa.BasicBlock, predIdx int, st *State)
 				return f.val(phi), true
 			}
 		}
-		return f.lookupVar(name, b, st)
+		// phis of enclosing loops (their headers dominate b): innermost first
+		var best *ssa.BasicBlock
+		var bestVal ssa.Value
+		for h, oli := range f.loops {
+			if h == b || !oli.blocks[b] {
+				continue
+			}
+			for _, ins := range h.Instrs {
+				phi, ok := ins.(*ssa.Phi)
+				if !ok {
+					break
+				}
+				if (name == "$i" && phi.Comment == "rangeindex") || (name != "$i" && phi.Comment == name) {
+					if best == nil || best.Dominates(h) {
+						best, bestVal = h, phi
+					}
+				}
+			}
+		}
+		if bestVal != nil && name == "$i" {
+			return f.val(bestVal), true
+		}
+		if v, ok := f.lookupVar(name, b, st); ok {
+			return v, true
+		}
+		if bestVal != nil {
+			return f.val(bestVal), true
+		}
+		return Val{}, false
 	}
 	return env
 }
@@ -395,7 +485,20 @@ func (f *frame) checkInvariants(li *loopInfo, h *ssa.BasicBlock, predIdx int, gu
 // havocLoop produces the state at an arbitrary iteration of the loop.
 func (f *frame) havocLoop(li *loopInfo, pre *State, guard string) *State {
 	vc := f.vc
-	pats := f.loopModPats(li, pre)
+	var pats []modPat
+	if li.spec != nil && li.spec.HasAssign && f.top {
+		// declared loop frame: evaluated in the state before the loop; every
+		// write inside the loop is checked against it (execInstr)
+		env := f.loopEnv(li, li.header, -1, pre)
+		env.lookup = func(name string) (Val, bool) { return f.lookupVar(name, li.header, pre) }
+		pats = vc.assignPats(env, li.spec.Assigns)
+		if f.declFrames == nil {
+			f.declFrames = map[*loopInfo]*declFrame{}
+		}
+		f.declFrames[li] = &declFrame{pats: pats, top: pre.Top}
+	} else {
+		pats = f.loopModPats(li, pre)
+	}
 	st := pre.Clone()
 	for _, srt := range vc.allHeaps() {
 		if !patsTouch(pats, srt) {
@@ -457,11 +560,7 @@ func (f *frame) execBlock(b *ssa.BasicBlock, in string, st *State) {
 			return
 		case *ssa.Panic:
 			f.runDefers(in, st)
-			if f.top && (f.spec == nil || !f.spec.MayPanic) {
-				vc.oblige("panic", vc.anchorAt(f.fn, x.Pos(), "call"), in, "false", vc.posOf(x.Pos()), "explicit panic must be unreachable")
-			} else if !f.top {
-				vc.obligeIn(f, "panic", vc.anchorAt(f.fn, x.Pos(), "call"), in, "false", x.Pos(), "explicit panic in inlined callee must be unreachable")
-			}
+			vc.obligeIn(f, "panic", vc.anchorAt(f.fn, x.Pos(), "call"), in, "false", x.Pos(), "explicit panic must be unreachable")
 			f.outSt[b] = st
 			return
 		default:
@@ -475,6 +574,14 @@ func (f *frame) execBlock(b *ssa.BasicBlock, in string, st *State) {
 func (vc *VC) obligeIn(f *frame, kind, anchor, guard, goal string, pos token.Pos, desc string) {
 	if vc.Spec != nil && vc.Spec.MayPanic && (kind == "bounds" || kind == "nil" || kind == "panic" || kind == "div" || kind == "typeassert" || kind == "makeslice") {
 		return
+	}
+	if vc.Spec != nil && kind == "panic" {
+		for _, ok := range vc.Spec.PanicOK {
+			if strings.Contains(anchor, ok) {
+				vc.note("panic site %q in %s is allowed by the contract (may_panic_at %s)", anchor, FuncName(vc.Fn), ok)
+				return
+			}
+		}
 	}
 	if !f.top {
 		anchor = "inl(" + FuncName(f.fn) + ")" + anchor
